@@ -321,7 +321,9 @@ func objectsToUpload(st storage.Storer, wants, haves []plumbing.Hash) ([]plumbin
 func getShallowCommits(st storage.Storer, heads []plumbing.Hash, depth int, upd *packp.ShallowUpdate) error {
 	var i, curDepth int
 	var commit *object.Commit
-	depths := map[*object.Commit]int{}
+	// Keyed by object id: every decode yields a new *object.Commit, so a pointer
+	// key never recognises a commit that is reached on a second path.
+	depths := map[plumbing.Hash]int{}
 	stack := []object.Object{}
 
 	for commit != nil || i < len(heads) || len(stack) > 0 {
@@ -339,50 +341,60 @@ func getShallowCommits(st storage.Storer, heads []plumbing.Hash, depth int, upd 
 					continue
 				}
 
-				depths[commit] = 0
+				depths[commit.Hash] = 0
 				curDepth = 0
 			} else if len(stack) > 0 {
 				commit = stack[len(stack)-1].(*object.Commit)
 				stack = stack[:len(stack)-1]
-				curDepth = depths[commit]
+				curDepth = depths[commit.Hash]
 			}
 		}
 
 		curDepth++
 
 		if depth != math.MaxInt && curDepth >= depth {
-			upd.Shallows = append(upd.Shallows, commit.Hash)
 			commit = nil
 			continue
 		}
 
-		upd.Unshallows = append(upd.Unshallows, commit.Hash)
+		// Collect the parents first: peeking with a second Next() to learn
+		// whether more follow consumes (and loses) the next parent.
+		var parents []*object.Commit
+		if err := commit.Parents().ForEach(func(p *object.Commit) error {
+			parents = append(parents, p)
+			return nil
+		}); err != nil {
+			return err
+		}
 
-		parents := commit.Parents()
 		commit = nil
-		for {
-			parent, err := parents.Next()
-			if err == io.EOF {
-				break
-			}
-			if err != nil {
-				return err
-			}
-
-			if depths[parent] != 0 && curDepth >= depths[parent] {
+		for k, parent := range parents {
+			if d, ok := depths[parent.Hash]; ok && curDepth >= d {
 				continue
 			}
 
-			depths[parent] = curDepth
+			depths[parent.Hash] = curDepth
 
-			if _, err := parents.Next(); err == nil {
+			if k < len(parents)-1 {
 				stack = append(stack, parent)
 			} else {
 				commit = parent
-				curDepth = depths[commit]
+				curDepth = depths[commit.Hash]
 			}
 		}
 	}
+
+	// depths now holds, per visited commit, the minimal depth of its
+	// predecessor: a commit whose own depth reaches the limit is the boundary.
+	for h, d := range depths {
+		if depth != math.MaxInt && d+1 >= depth {
+			upd.Shallows = append(upd.Shallows, h)
+		} else {
+			upd.Unshallows = append(upd.Unshallows, h)
+		}
+	}
+	plumbing.HashesSort(upd.Shallows)
+	plumbing.HashesSort(upd.Unshallows)
 
 	return nil
 }
